@@ -1,6 +1,7 @@
 """Executor for FTStore behaviours: runs abstract mutation histories on the real API and logs, after every
 call, the outcome class and the projected state.  Contains no expected values."""
 import json
+from fractions import Fraction
 import sys
 
 sys.path.insert(0, __import__("os").environ.get("VERIF_REPO", "/repo"))
@@ -247,6 +248,16 @@ def do_action(obj, root, a, emb, beh=None, env=None):
         if isinstance(res, Payload):
             return {"res": proj.proj_payload(res, None, env.get("oids") if env else None)}
         return {"res": {"k": "X", "t": "returned-" + type(res).__name__}}
+    if op in ("dlookup", "dinsert"):
+        import warnings
+        f = fiber_at(root, a["path"])
+        with warnings.catch_warnings():
+            warnings.simplefilter("ignore")
+            if op == "dlookup":
+                f.insertOrLookup(a["c"])
+            else:
+                f.insert(a["c"], a["v"])
+        return None
     if op in ("getpos", "getposref"):
         f = fiber_at(root, a["path"])
         kw = {"start_pos": (Payload(a["sp"]) if (a["sp"] + a["c"]) % 2 else a["sp"])} if a["sp"] != -1 else {}
@@ -304,7 +315,8 @@ def do_action(obj, root, a, emb, beh=None, env=None):
             for _ in f.iterRangeShapeRef(a["lo"], a["hi"], a["step"]):
                 pass
         elif op == "fimul":
-            f *= a["v"]
+            # the scalar is a plain int or (every other case) a number of another numeric type with the same value
+            f *= (Fraction(a["v"]) if (a["v"] + len(a.get("path", []))) % 2 else a["v"])
         elif op == "fiadd":
             f += a["v"]
         elif op == "updcoords":
